@@ -99,8 +99,8 @@ def run(repo, rep):
     n_store = n_stop = 0
     for s, kind in ipaths:
         from ..sym import cond_eq
-        is_store = cond_eq(s.conds, '%s.command_field' % rq, 'dimsemessages.CStoreRQMessage.command_field')
-        is_get = cond_eq(s.conds, '%s.command_field' % rq, 'dimsemessages.CGetRSPMessage.command_field')
+        is_store = cond_eq(s.conds, '%s.command_field' % rq, 'dimsemessages.CStoreRQMessage.command_field', fold=lambda e_: repo.try_fold(e_, repo.module('sopclass')))
+        is_get = cond_eq(s.conds, '%s.command_field' % rq, 'dimsemessages.CGetRSPMessage.command_field', fold=lambda e_: repo.try_fold(e_, repo.module('sopclass')))
         sn = [e for e in s.trail if e.kind == 'send']
         ys = [e for e in s.trail if e.kind == 'yield']
         if len([e for e in s.trail if e.kind == 'receive']) != 1:
